@@ -15,7 +15,7 @@ from ..engine import emit, cfg as cfgmod, flow
 from ..engine import pattern as P
 from ..engine.facts import dotted, const, src, walk_func, enclosing_stmt, ancestors, str_value
 from . import skeletons as sk
-from .common import calls, stmt_nodes, contains, norm_successors, pn, access_paths
+from .common import calls, stmt_nodes, contains, norm_successors, pn, access_paths, assigned_from
 
 
 @rule("C12.line-accounting", min_instances=6)
@@ -252,12 +252,14 @@ def warning_regions(ctx):
     ctx.check(inside_with(ex[0], "_translate_module_warnings") is not None, "compile_text.exec-in-region", db.where(ex[0]), "exec of the module body is outside the translation region", "inside the translation region")
     if w is not None:
         ctx.check(src(w.args[1]) == src(comp[0].args[1]), "compile_text.same-id", db.where(w), "the translator filters on %s but compile() is given %s as filename" % (src(w.args[1]), src(comp[0].args[1])), "same identifier %s" % src(w.args[1]))
-        ctx.check(src(w.args[2]).startswith("filename") and "template.uri" in src(w.args[2]), "compile_text.shown-as", db.where(w), "warnings are shown as %s" % src(w.args[2]), "shown as filename or template uri")
-        ctx.check("source" in src(w.args[0]), "compile_text.get-source", db.where(w), "line map is read from %s" % src(w.args[0]), "line map from the generated source")
+        ctx.check(P.matches(w.args[2], "%s or %s.uri" % (pn(ct, 2), pn(ct, 0))) or src(w.args[2]) == pn(ct, 2), "compile_text.shown-as", db.where(w), "warnings are shown as %s" % src(w.args[2]), "shown as filename or template uri")
+        srcv = assigned_from(ct, "_compile(...)#0")
+        ctx.check(isinstance(w.args[0], ast.Lambda) and src(w.args[0].body) in srcv, "compile_text.get-source", db.where(w), "line map is read from %s" % src(w.args[0]), "line map from the generated source")
     cm = calls(ct, "_compile")
     ctx.check(bool(cm) and inside_with(cm[0], "_drop_expression_warnings") is not None, "compile_text.drop-region", db.where(cm[0]) if cm else db.where(ct), "_compile is not wrapped in _drop_expression_warnings: expression-level warnings are shown twice / at <unknown>", "inside _drop_expression_warnings")
     # loader/spec before exec
-    spec = [n for n in walk_func(ct) if isinstance(n, ast.Assign) and dotted(n.targets[0]) in ("module.__spec__", "module.__loader__")]
+    modv = assigned_from(ct, "types.ModuleType($i)")
+    spec = [n for n in walk_func(ct) if isinstance(n, ast.Assign) and isinstance(n.targets[0], ast.Attribute) and n.targets[0].attr in ("__spec__", "__loader__") and src(n.targets[0].value) in modv]
     ctx.check(len(spec) == 2 and all(s.lineno < ex[0].lineno for s in spec), "compile_text.loader-before-exec", db.where(ex[0]), "in-memory module gets no loader/spec before it is executed", "loader and spec set before exec")
     cf = db.func("template.Template._compile_from_file")
     loads = calls(cf, "compat.load_module")
@@ -285,7 +287,9 @@ def warning_regions(ctx):
     tl = db.func("template._translate_module_warnings._locate")
     ctx.check(P.has(tl, "if $w != module_id:\n    return ($w, $l)"), "translate.passthrough", db.where(tl), "warnings of other files are not passed through unchanged", "other files unchanged")
     sw = db.func("template._show_warnings_as._show")
-    ctx.check(P.has(sw, "$loc = locate($_, $_, $_, $_)\nif $loc is None:\n    return") and P.count(sw, "show_warning($_, $_, $_, $_, $_, $_)") == 1, "show.once", db.where(sw), "the hook does not show each warning exactly once through the original hook", "dropped or forwarded exactly once")
+    swa = db.func("template._show_warnings_as")
+    orig = assigned_from(swa, "warnings.showwarning")
+    ctx.check(P.has(sw, "$loc = %s($_, $_, $_, $_)\nif $loc is None:\n    return" % pn(swa, 0)) and sum(P.count(sw, "%s($_, $_, $_, $_, $_, $_)" % o_) for o_ in orig) == 1, "show.once", db.where(sw), "the hook does not show each warning exactly once through the original hook", "dropped or forwarded exactly once")
 
 
 @rule("C12.line-split-agreement", min_instances=3, props=["C11"])
